@@ -50,6 +50,16 @@ CLAIMS = {
    note='Trusted: Coq kernel/vm_compute; py2v/gen_options; validity of a value is an oracle bit (harness supplies the documented domain and cross-checks the implementation against it); '
         'hand model Options.v tied by lock-step correspondence over real threads. No axioms.',
    design='DESIGN.md section 4 C20'),
+ 'C14': dict(
+   technique='Coq proof: translated next/prev stepping programs vs translated syntax-order tables (generic soundness lemma + finite vm_compute check), walk stack machines = structural orders; correspondence; navigation oracle',
+   text='Proved (closed): for every regular node class and EVERY node shape the stepping function translated from traverse_next/prev.py returns the successor/predecessor in the '
+        'child order translated from _SYNTAX_ORDERED_CHILDREN (compat_sound + C14_tables_compatible_and_complete re-checked on the regenerated tables every run); the walk stack '
+        'machines compute preorder / mirrored preorder (back) / postorder (leave) / bracketed order (both) / one-level filter for every tree and filter. Partial: the six '
+        'position-interleaving classes, step_fwd/step_back and child_path are compared by correspondence/oracle only (walk set vs ast.walk, parent-first, sibling text order, '
+        'all chains mutually consistent, paths bijective, filtered walks bracketed).',
+   note='Trusted: Coq kernel/vm_compute; py2v/gen_traverse (also reads ASDL kinds from CPython ast docstrings); hand model Walk.v tied by correspondence; Module.type_ignores is '
+        'excluded from the compatibility check (documented deviation). One genuine defect found and fixed (root filter on leave/both). No axioms.',
+   design='DESIGN.md section 4 C14'),
 }
 
 checks = []
